@@ -40,11 +40,23 @@ def _solve_one(job):
     t0 = time.time()
     verdict, backend, reason = 'unknown', 'z3', ''
     if smt2_ack is not None:
-        # Ackermann abstraction of the sidecar's spec functions (pyvc/ack.py): only `unsat` is a verdict
+        # Ackermann abstraction of the sidecar's spec functions (pyvc/ack.py), done here in the worker on the parsed
+        # assertions: only `unsat` is a verdict.  Stage 1 without functional consistency (pure abstraction, cheap),
+        # stage 2 with it.
         try:
-            v0, _r0 = _z3_try(smt2_ack, timeout_ms)
-            if v0 == 'proved':
-                return idx, 'proved', 'z3-ack', time.time() - t0, ''
+            from . import ack
+            ps = z3.Solver()
+            ps.from_string(smt2)
+            asserts = list(ps.assertions())
+            for k_, cong in enumerate((False, True)):
+                ab = ack.abstract(asserts, z3.BoolVal(False), smt2_ack, congruence=cong)
+                if ab is None:
+                    break
+                s2 = z3.Solver()
+                s2.set('timeout', min(timeout_ms, 6000) if k_ == 0 else timeout_ms)
+                s2.add(*ab[0])
+                if s2.check() == z3.unsat:
+                    return idx, 'proved', 'z3-ack' if cong else 'z3-ack0', time.time() - t0, ''
         except Exception as e:
             reason = 'z3-ack error: ' + repr(e)
     if cvc5_first and use_cvc5:
@@ -111,15 +123,7 @@ def solve_all(obligations, timeout_ms=None, use_cvc5=True, nproc=None):
             smt2 = to_smt2(ob.pc, ob.goal)
         ob.smt2_size = len(smt2)
         names = getattr(getattr(getattr(ob, 'engine', None), 'spec', None), 'abstract_fns', None)
-        smt2_ack = None
-        if names and ob.kind != 'cover':
-            try:
-                from . import ack
-                ab = ack.abstract(ob.pc, ob.goal, names)
-                if ab is not None:
-                    smt2_ack = to_smt2(ab[0], ab[1])
-            except Exception:
-                smt2_ack = None
+        smt2_ack = list(names) if names and ob.kind != 'cover' else None
         cvc5_first = bool(getattr(getattr(getattr(ob, 'engine', None), 'spec', None), 'cvc5_first', False))
         jobs.append((i, smt2, timeout_ms, use_cvc5, smt2_ack, cvc5_first and ob.kind != 'cover'))
     nproc = nproc or NPROC
